@@ -7,6 +7,7 @@ pub mod mcf;
 pub mod net;
 pub mod pipe;
 pub mod sched;
+pub mod search;
 pub mod serve;
 pub mod swaps;
 pub mod tour;
@@ -29,14 +30,23 @@ pub fn generate(scope: &str, name: &str, seed: u64, k: u64, rng: &mut Rng, tier:
         "pipe" => {
             let pick = match std::env::var("RSV_PIPE_PROFILE") {
                 Ok(v) => v.parse::<u64>().unwrap_or(0), // experiments only (mutrate.sh)
-                Err(_) => rng.below(15),
+                Err(_) => rng.below(18),
             };
+            let many_cycles = (15..=17).contains(&pick);
             let p = match pick {
                 0..=1 => Profile::small(),
                 2..=3 => Profile::maint_heavy(),
                 4 => Profile::fleet_heavy(),
                 5..=7 => Profile::cycle_heavy(),
                 10..=12 => Profile::multi_fleet(),
+                15..=17 => {
+                    // many rotation cycles of one type: several slots with several tracks and a short
+                    // maintenance distance, so that three and more vehicles are maintained (one cycle
+                    // each at first) and the transition optimiser merges most of them
+                    let mut p = Profile::cycle_heavy();
+                    p.max_maint = 4;
+                    p
+                }
                 13..=14 => {
                     // reachability that is not transitive (a -> maintenance slot -> b, but not a -> b)
                     let mut p = if rng.chance(50) { Profile::maint_heavy() } else { Profile::fleet_heavy() };
@@ -45,7 +55,20 @@ pub fn generate(scope: &str, name: &str, seed: u64, k: u64, rng: &mut Rng, tier:
                 }
                 _ => Profile::medium(),
             };
-            let inst = gen_instance(rng, &p);
+            let mut inst = gen_instance(rng, &p);
+            if many_cycles {
+                inst.max_dist = (inst.max_dist / rng.range(2, 4)).max(300);
+                for m in inst.maint.iter_mut() {
+                    m.tracks = rng.range(2, 3);
+                }
+                while inst.maint.len() < 3 {
+                    let mut m = inst.maint[0].clone();
+                    m.start += crate::inst::GRID * rng.range(3, 12);
+                    m.end = m.start + crate::inst::GRID * rng.range(1, 4);
+                    m.loc = rng.below(inst.nlocs as u64) as usize;
+                    inst.maint.push(m);
+                }
+            }
             head + &pipe::run(&inst, &workdir(), name, tier)
         }
         "mcf" => {
@@ -58,6 +81,32 @@ pub fn generate(scope: &str, name: &str, seed: u64, k: u64, rng: &mut Rng, tier:
             match load_or_report(inst) {
                 Err(s) => head + &s,
                 Ok(ctx) => head + &ctx.inst.to_text() + &mcf::run(&ctx),
+            }
+        }
+        "search" => {
+            // instances with maintenance slots only (the pipeline runs the local search only then);
+            // most of them with cost rates under which coupling a vehicle onto a served trip pays off
+            let pick = match std::env::var("RSV_SEARCH_PROFILE") {
+                Ok(v) => v.parse::<u64>().unwrap_or(0), // experiments only
+                Err(_) => [1, 2, 2, 2, 2, 2, 1, 0][rng.below(8) as usize],
+            };
+            let mut p = match pick {
+                0 => Profile::fleet_heavy(),
+                1 => Profile::medium(),
+                4 => Profile::cycle_heavy(),
+                5 => Profile::multi_fleet(),
+                _ => Profile::maint_heavy(),
+            };
+            p.maint_percent = 100;
+            let mut inst = gen_instance(rng, &p);
+            if rng.chance(if std::env::var("RSV_SEARCH_PROFILE").is_ok() { 100 } else { 70 }) {
+                inst.c_service = rng.range(0, 2);
+                inst.c_dh = rng.range(5, 20);
+                inst.c_idle = rng.range(0, 3);
+            }
+            match load_or_report(inst) {
+                Err(s) => head + &s,
+                Ok(ctx) => head + &ctx.inst.to_text() + &search::run(&ctx),
             }
         }
         "swaps" => {
